@@ -1666,3 +1666,165 @@ Lemma parse_block_sim fuel s b s' : parse_block B fuel s = Ok b s' -> serrs s' =
   sused s' = [] /\ fns s' = fns s /\ block_sok B (fns s) b /\
   scope_block (tabs_of B (fns s)) b (abs s) = Some (tl (abs s')).
 Proof. unfold parse_block. apply block_with_sim; [apply stmt_sound|apply stmt_sim]. Qed.
+
+Lemma abs_rec s b h : abs {| cs := cs s; scs := scs s; fns := fns s; bodies := b; hds := h |} = abs s. Proof. reflexivity. Qed.
+Lemma fns_rec s b h : fns {| cs := cs s; scs := scs s; fns := fns s; bodies := b; hds := h |} = fns s. Proof. reflexivity. Qed.
+Lemma sused_rec s b h : sused {| cs := cs s; scs := scs s; fns := fns s; bodies := b; hds := h |} = sused s. Proof. reflexivity. Qed.
+Lemma serrs_rec s b h : serrs {| cs := cs s; scs := scs s; fns := fns s; bodies := b; hds := h |} = serrs s. Proof. reflexivity. Qed.
+Lemma frames_rec s b h : frames {| cs := cs s; scs := scs s; fns := fns s; bodies := b; hds := h |} = frames s. Proof. reflexivity. Qed.
+
+Lemma add_params_sim : forall l s, serrs (add_params B l s) = [] -> scs s <> [] ->
+  declare_all (tabs_of B (fns s)) (map fst l) (abs s) = Some (abs (add_params B l s)) /\
+  fns (add_params B l s) = fns s /\ sused (add_params B l s) = sused s.
+Proof.
+  induction l as [|[n p] l IH]; intros s Q N; [simpl; auto|].
+  change (add_params B ((n, p) :: l) s) with (add_params B l (scope_set n p (snd (validate_var_decl B n p true s)))) in *.
+  destruct (add_params_sn B l _ Q) as [Q1 _]. autorewrite with serrs in Q1.
+  destruct (validate_var_decl B n p true s) as [ok s2] eqn:V. cbn [snd] in *.
+  destruct (serrs_validate_var_decl _ _ _ _ _ _ _ V Q1) as [E1 E2]. subst ok s2.
+  pose proof (declare_sim B n p true s) as D. rewrite V in D. specialize (D eq_refl N).
+  destruct (IH _ Q) as (D2 & F2 & U2); [eapply scs_of_frames; [apply frames_scope_set|exact N]|].
+  autorewrite with fns sused in *. cbn [map fst declare_all]. rewrite D. auto.
+Qed.
+
+Lemma add_event_params_sim : forall ps ex s, List.length ps = List.length ex ->
+  serrs (add_event_params B ps ex s) = [] -> scs s <> [] ->
+  declare_all (tabs_of B (fns s)) (map (fun d => fst (fst d)) ps) (abs s) = Some (abs (add_event_params B ps ex s)) /\
+  fns (add_event_params B ps ex s) = fns s /\ sused (add_event_params B ps ex s) = sused s.
+Proof.
+  induction ps as [|[[n p] t] ps IH]; intros ex s L Q N; [simpl; auto|].
+  destruct ex as [|e ex]; [discriminate L|]. injection L as L. cbn [add_event_params] in *.
+  match type of Q with serrs (add_event_params B ps ex (scope_set n p ?x)) = [] => set (s2 := x) in * end.
+  destruct (add_event_params_sn B ps ex _ Q) as [Q1 _]. autorewrite with serrs in Q1.
+  destruct (validate_var_decl B n p true s) as [ok s1] eqn:V. cbn [snd] in *.
+  assert (E : s2 = s1 /\ serrs s1 = []).
+  { unfold s2 in *. destruct t as [t'|]; [destruct (ty_eqb t' e); [auto|discriminate Q1]|auto]. }
+  destruct E as [E Q0]. rewrite E in *. clear E s2.
+  destruct (serrs_validate_var_decl _ _ _ _ _ _ _ V Q0) as [E1 E2]. subst ok s1.
+  pose proof (declare_sim B n p true s) as D. rewrite V in D. specialize (D eq_refl N).
+  destruct (IH _ _ L Q) as (D2 & F2 & U2); [eapply scs_of_frames; [apply frames_scope_set|exact N]|].
+  autorewrite with fns sused in *. cbn [map fst declare_all]. rewrite D. auto.
+Qed.
+
+Lemma on_params_loop_sim : forall fuel acc s r s', on_params_loop B fuel acc s = Ok r s' -> serrs s' = [] -> sused s = [] ->
+  abs s' = abs s /\ fns s' = fns s /\ sused s' = [].
+Proof.
+  induction fuel as [|f IH]; intros acc s r s' H Q U; [discriminate|]. cbn [on_params_loop] in H.
+  destruct (is_at_eol (cs s)); [apply Ok_inj in H as [E1 E2]; subst; auto|].
+  destruct (parse_typed_decl B (snd (passert T_IDENT s))) as [d s1| |] eqn:P; try discriminate H.
+  destruct (on_params_loop_sn B _ _ _ _ _ H Q) as [Q1 _].
+  destruct (typed_decl_sim B _ _ _ P Q1) as (A1 & F1 & U1 & _); [autorewrite with sused; exact U|].
+  destruct (IH _ _ _ _ H Q U1) as (A2 & F2 & U2). autorewrite with abs fns in *. split; [congruence|]. split; [congruence|exact U2].
+Qed.
+
+Lemma lookup_evn_of n evs ex : lookup_ev n evs = Some ex ->
+  lookup_evn n (map (fun e => (fst e, List.length (snd e))) evs) = Some (List.length ex).
+Proof.
+  induction evs as [|[m x] l IH]; simpl; [discriminate|].
+  destruct (str_eqb m n); [intro H; injection H as ->; reflexivity|exact IH].
+Qed.
+
+(* parseFunc.  The premise "the token after `func` is an identifier" is what parseFuncSignatures has checked (and reported)
+   for every `func` keyword of the input before the statement loop starts *)
+Lemma func_sim fuel s r s' : parse_func B fuel s = Ok r s' -> serrs s' = [] -> WF s -> ct (adv s) = T_IDENT ->
+  sused s' = [] /\ fns s' = fns s /\
+  match r with
+  | Some st => stmt_sok B (fns s) st /\ scope_stmt (tabs_of B (fns s)) st (abs s) = Some (abs s')
+  | None => abs s' = abs s
+  end.
+Proof.
+  unfold parse_func. intros H Q [N U] TI. cbv zeta in H. rewrite TI in H.
+  match type of H with context[add_params B (fi_params ?f)] => set (fi := f) in H end.
+  match type of H with context[parse_block B fuel ?x] => set (s3 := x) in H end.
+  destruct (parse_block B fuel s3) as [b s4| |] eqn:PB; try discriminate H.
+  cbn [negb] in H.
+  destruct (mem_str _ _); [apply Ok_inj in H as [E1 E2]; subst; autorewrite with serrs in Q; discriminate Q|].
+  apply Ok_inj in H as [E1 E2]; subst r s'.
+  change (serrs (finish_end (if fi_ret fi && negb (block_terms b) then serr K_missing_return s4 else s4)) = []) in Q.
+  destruct (SN_finish_end _ Q) as [Q5 _].
+  destruct (fi_ret fi && negb (block_terms b)) eqn:MR; [discriminate Q5|].
+  destruct (parse_block_sound B _ _ _ _ PB Q5) as (Q3 & _ & _).
+  set (s2 := push_scope true (fi_ret fi) false (apnl (adv s))) in *.
+  assert (N2 : scs s2 <> []) by (unfold s2; simpl; discriminate).
+  destruct (add_params_sim (fi_params fi) s2 Q3 N2) as (D3 & F3 & U3).
+  assert (W3 : WF s3).
+  { split; [|unfold s3; rewrite U3; unfold s2; autorewrite with sused; exact U].
+    eapply (scs_of_frames s2); [|exact N2]. destruct (add_params_sn B (fi_params fi) s2 Q3) as [_ F]. exact F. }
+  destruct (parse_block_sim _ _ _ _ PB Q5 W3) as (U4 & F4 & Tb & Sb).
+  unfold s3 in F4, Tb, Sb. rewrite F3 in F4, Tb, Sb. unfold s2 in F4, Tb, Sb, D3. autorewrite with fns abs in F4, Tb, Sb, D3.
+  rewrite sused_pop_scope, fns_pop_scope, abs_pop_scope, sused_rec, fns_rec, abs_rec.
+  autorewrite with sused fns abs.
+  split; [exact U4|]. split; [exact F4|]. split; [exact Tb|].
+  cbn [scope_stmt]. fold (scope_block (tabs_of B (fns s))). rewrite D3. exact Sb.
+Qed.
+
+Lemma scope_on_eq T name params b G :
+  scope_stmt T (SOn name params b) G =
+  match lookup_evn name (t_events T) with
+  | None => None
+  | Some k =>
+      match params with
+      | [] => scope_block T b ([] :: G)
+      | _ => if Nat.eqb (List.length params) k then obind (declare_all T params ([] :: G)) (scope_block T b) else None
+      end
+  end.
+Proof. reflexivity. Qed.
+
+Lemma event_handler_sim fuel s r s' : parse_event_handler B fuel s = Ok r s' -> SIM B s r s'.
+Proof.
+  unfold parse_event_handler. intros H Q [N U]. cbv zeta in H.
+  destruct (passert T_IDENT (adv s)) as [ok s2] eqn:A.
+  destruct ok; cbn [negb] in H.
+  2:{ apply Ok_inj in H as [E1 E2]; subst. autorewrite with serrs in Q. destruct (passert_ne _ _ _ _ A Q) as [E _]. discriminate E. }
+  match type of H with context[on_params_loop B _ [] (adv ?x)] => set (s3 := x) in H end.
+  destruct (on_params_loop B (S (pos s3)) [] (adv s3)) as [params s4| |] eqn:PL; try discriminate H.
+  match type of H with context[parse_block B fuel ?x] => set (s6 := x) in H end.
+  destruct (parse_block B fuel s6) as [b s7| |] eqn:PB; try discriminate H.
+  apply Ok_inj in H as [E1 E2]; subst r s'. autorewrite with serrs in Q.
+  destruct (SN_finish_end s7 Q) as [Q7 _].
+  destruct (parse_block_sound B _ _ _ _ PB Q7) as (Q6 & _ & _).
+  set (s5 := push_scope true false false (apnl s4)) in *.
+  assert (N5 : scs s5 <> []) by (unfold s5; simpl; discriminate).
+  set (name := tlit (cur (cs s2))) in *.
+  set (pnames := map (fun d : str * nat * option ty => fst (fst d)) params) in *.
+  (* the parameters *)
+  assert (P6 : serrs s5 = [] /\ frames s6 = frames s5 /\ fns s6 = fns s5 /\ sused s6 = sused s5 /\
+               forall ex, lookup_ev name (b_events B) = Some ex ->
+                 match pnames with
+                 | [] => Some ([] :: abs s4)
+                 | _ => if Nat.eqb (List.length pnames) (List.length ex)
+                        then declare_all (tabs_of B (fns s4)) pnames ([] :: abs s4) else None
+                 end = Some (abs s6)).
+  { unfold s6, pnames. destruct params as [|d ds].
+    { split; [exact Q6|]. repeat (split; [reflexivity|]). intros ex _. reflexivity. }
+    destruct (lookup_ev name (b_events B)) as [ex|] eqn:EV.
+    2:{ split; [exact Q6|]. repeat (split; [reflexivity|]). intros ex X; discriminate X. }
+    unfold s6 in Q6.
+    destruct (add_event_params_sn B (d :: ds) ex _ Q6) as [Q5 F5].
+    rewrite map_length.
+    destruct (Nat.eqb (List.length (d :: ds)) (List.length ex)) eqn:LE; [|discriminate Q5].
+    apply Nat.eqb_eq in LE.
+    destruct (add_event_params_sim (d :: ds) ex s5 LE Q6 N5) as (D & F & U6).
+    split; [exact Q5|]. split; [exact F5|]. split; [exact F|]. split; [exact U6|].
+    intros ex' X. injection X as <-. cbn [map]. rewrite (proj2 (Nat.eqb_eq _ _) LE). exact D. }
+  destruct P6 as (Q5 & F65 & Fn65 & U65 & D6). unfold s5 in Q5. autorewrite with serrs in Q5.
+  destruct (on_params_loop_sn B _ _ _ _ _ PL Q5) as [Q3 _]. autorewrite with serrs in Q3.
+  assert (E3 : exists ex, lookup_ev name (b_events B) = Some ex /\ serrs s2 = [] /\ abs s3 = abs s2 /\ fns s3 = fns s2 /\ sused s3 = sused s2).
+  { unfold s3 in Q3 |- *. destruct (mem_str name (hds s2)); [discriminate Q3|].
+    destruct (lookup_ev name (b_events B)) as [ex|]; [|discriminate Q3]. exists ex. repeat split; auto. }
+  destruct E3 as (ex & EV & Q2 & A3 & Fn3 & U3).
+  destruct (passert_ne _ _ _ _ A Q2) as [_ E2]. subst s2.
+  destruct (on_params_loop_sim _ _ _ _ _ PL Q5) as (A4 & Fn4 & U4); [autorewrite with sused; rewrite U3; autorewrite with sused; exact U|].
+  autorewrite with abs fns sused in *.
+  assert (W6 : WF s6).
+  { split; [eapply (scs_of_frames s5); [exact F65|exact N5]|]. rewrite U65. unfold s5. autorewrite with sused. exact U4. }
+  destruct (parse_block_sim _ _ _ _ PB Q7 W6) as (U7 & F7 & Tb & Sb).
+  rewrite Fn65 in F7, Tb, Sb. unfold s5 in F7, Tb, Sb. autorewrite with fns in F7, Tb, Sb.
+  rewrite Fn4, Fn3 in *. autorewrite with fns in *. rewrite A4, A3 in *. autorewrite with abs in *.
+  specialize (D6 ex EV).
+  split; [exact U7|]. split; [exact F7|]. split; [exact Tb|].
+  rewrite scope_on_eq. cbn [t_events tabs_of]. rewrite (lookup_evn_of _ _ _ EV).
+  destruct pnames as [|pn pr] eqn:EP.
+  - injection D6 as D6. rewrite D6. exact Sb.
+  - destruct (Nat.eqb _ _); [|discriminate D6]. rewrite D6. exact Sb.
+Qed.
